@@ -68,8 +68,16 @@ ShowOK(o) ==
   /\ (e.invalid # <<>> \/ e.rejected # <<>>) => o.failed
   /\ (e.invalid = <<>> /\ e.rejected = <<>> /\ e.free = <<>>) => ~o.failed
 
+\* value fidelity (C13): every injector call returns the same value, and it is the value the expression has in its home package
+\* (for expressions that allocate, the pointer itself is fresh per evaluation: compare what it points to)
+NoPtr(d) == IF "p" \in DOMAIN d THEN [x \in (DOMAIN d) \ {"p", "fa"} |-> d[x]] ELSE d
+ValueOK(o) ==
+  /\ Len(o.inj) = 2 /\ Len(o.home) = 1
+  /\ o.inj[1] = o.inj[2]
+  /\ IF Cases[o.ci].alloc THEN NoPtr(o.inj[1]) = NoPtr(o.home[1]) ELSE o.inj[1] = o.home[1]
+
 ObsOK(o) == IF o.cmd = "gen" THEN GenOK(o) ELSE IF o.cmd = "check" THEN CheckOK(o)
-            ELSE IF o.cmd = "show" THEN ShowOK(o) ELSE FALSE
+            ELSE IF o.cmd = "show" THEN ShowOK(o) ELSE IF o.cmd = "value" THEN ValueOK(o) ELSE FALSE
 
 \* one line per rejected observation, then the completion marker
 ASSUME \A l \in DOMAIN Obs : ObsOK(Obs[l]) \/ PrintT(<<"BADOBS", l>>)
